@@ -766,7 +766,9 @@ func (broker *Broker) startQueue(wg *sync.WaitGroup) {
 	var block bool
 	for {
 		if block {
-			wait = nil
+			// Nothing to hand out right now, but a file held back by its tag's
+			// last-delay becomes due without any new input: look again in a while
+			wait = time.After(time.Second * 1)
 		} else {
 			// Make the wait time very small to keep from there being a bottle
 			// neck getting the file slices out of the Q
